@@ -4,16 +4,16 @@ package main
 
 import (
 	"bytes"
+	"crypto/sha256"
 	"encoding/binary"
 	"encoding/hex"
 	"fmt"
 	"io"
 	"math/big"
-	"crypto/sha256"
 	"reflect"
-	"testing/iotest"
 	"strconv"
 	"strings"
+	"testing/iotest"
 
 	"github.com/kklash/bitcoinlib/blocks"
 	"github.com/kklash/bitcoinlib/blocks/blockheader"
